@@ -157,6 +157,15 @@ def racy(s):
 
 
 def run(ctx):
+    _run(ctx, None)
+
+
+def replay(ctx, obj):
+    """./check C17 --replay evidence/replays/C17/<file>: run that scenario again on the real code and validate it."""
+    _run(ctx, obj["scenario"])
+
+
+def _run(ctx, replay_scn):
     dev_stop = (ctx.deviation_open(DEV_STOP), ctx.deviation_open(DEV_REAPER))
     quick = ctx.tier == "quick"
     known = known_classes(ctx)
@@ -174,11 +183,8 @@ def run(ctx):
                 "one process per scenario; distinct = distinct plans; non-trivial = at least one request beyond LAUNCH")
 
     replay_only = None
-    if ctx.replay:
-        # ./check C17 --replay evidence/replays/C17/<file>: run that scenario again on the real code and validate it
-        with open(ctx.replay) as fh:
-            rp = json.load(fh)
-        replay_only = dict(rp["replay"]["scenario"])
+    if replay_scn:
+        replay_only = dict(replay_scn)
         replay_only.update({"plan": [], "predicted": [], "origin": "replay"})
 
     # 1. exhaustive model checking, per task kind; violations outside the classes of open findings are new
